@@ -162,6 +162,7 @@ def run(ctx):
                                      "non-trivial = at least one CAS failure or failed call in the implementation trace"})
         if not ok or ctx.failures:
             search(ctx, exe)
+    core.init_contract(ctx, ["lockfree_ring_buffer"])  # rt/h_init.c: real init on dirty memory
     core.finish(ctx, extra_assumptions=ASSUME)
 
 
@@ -195,6 +196,8 @@ def corpus(ctx):
 
 
 def replay(ctx, payload):
+    if payload.get("harness") == "h_init":
+        return core.replay_init(ctx, payload)
     exe = build(ctx)
     c = payload.get("case")
     if not exe or not c:
